@@ -1,6 +1,7 @@
 package main
 
 import (
+	"bytes"
 	"strconv"
 	"strings"
 
@@ -54,6 +55,20 @@ func c08One(c *core.Ctx, cs srcCase) {
 	}
 	c.NontrivialH(core.Hash(cs.Ver + string(cs.Src)))
 	kind := triviaKind(cs.Why)
+	if bytes.Contains(bytes.ToLower(cs.Base), []byte("__halt_compiler")) && !strings.HasPrefix(cs.Why, "special") {
+		// one family for the recorded halt-compiler defect, whatever the trivia
+		halt := func(what string) {
+			c.Report("[program with __halt_compiler] "+what, mkWhat("%q vs %q", cs.Base, cs.Src), cs)
+		}
+		if res.NErr() > 0 || res.Root == nil {
+			halt("a change of trivia between `__halt_compiler`, `(`, `)` and `;` makes the program report errors")
+		} else if astx.StructFP(res.Root) != astx.StructFP(base.Root) {
+			halt("a change of trivia between `__halt_compiler`, `(`, `)` and `;` changes the structure")
+		} else {
+			c.Stat("layouts_compared", 1)
+		}
+		return
+	}
 	if res.NErr() > 0 || res.Root == nil {
 		if loneCROnly(cs.Src, &res) {
 			c.Report("a lone CR between tokens is reported as an unexpected character", mkWhat("%s in %q", errList(res.Errs), cs.Src), cs)
@@ -103,6 +118,9 @@ func c08Run(c *core.Ctx) {
 	for _, fam := range []string{"php7", "php5"} {
 		f := corpus.MustFam(fam)
 		for _, it := range validItems(f, level) {
+			if !it.AsIntended {
+				continue // the scanner reads this text differently from the token string it was rendered from (e.g. `{a` inside backquotes is plain text): its "gaps" are not gaps
+			}
 			two := c.Thorough() && countSub(it.Why, "pos") <= 1 && countSub(it.Why, "pair") == 0
 			c08Deviations(it, two, func(src, why string) {
 				if src == it.Src || !c.Next() {
